@@ -364,3 +364,50 @@ def hexs(bs):
 
 def unhex(s):
     return b"" if s == "-" else bytes.fromhex(s)
+
+
+# ---------------------------------------------------------------- the command-line tool
+
+def build_lha(cb, sanitize=True):
+    """the real tool from the working tree (with -DTEST_BUILD so that TEST_NOW_TIME is honoured)"""
+    srcs = [os.path.join(REPO, "src", f) for f in SRC_SOURCES] + cb.lib_sources()
+    return cb.compile("lha", srcs, extra=["-DTEST_BUILD"], sanitize=sanitize)
+
+
+NOBODY = ["setpriv", "--reuid=65534", "--regid=65534", "--clear-groups"]
+
+
+def run_lha(exe, args, cwd=None, stdin=None, now=None, as_nobody=False, timeout=60, env_extra=None):
+    e = dict(os.environ)
+    e.update(ASAN_ENV)
+    e["TZ"] = "UTC"
+    e["LC_ALL"] = "C"
+    if now is not None:
+        e["TEST_NOW_TIME"] = str(now)
+    if env_extra:
+        e.update(env_extra)
+    cmd = (NOBODY if as_nobody and os.geteuid() == 0 else []) + [exe] + list(args)
+    try:
+        p = subprocess.run(cmd, cwd=cwd, input=stdin, stdout=subprocess.PIPE, stderr=subprocess.PIPE, timeout=timeout, env=e)
+        return p.returncode, p.stdout, p.stderr
+    except subprocess.TimeoutExpired as t:
+        return -999, t.stdout or b"", (t.stderr or b"") + b"\nTIMEOUT"
+
+
+def abnormal(rc, err):
+    """None if the tool ended normally, else a short description"""
+    txt = err.decode(errors="replace") if isinstance(err, bytes) else err
+    if rc == -999:
+        return "hang"
+    if rc < 0:
+        return "signal %d" % -rc
+    if rc in (98, 99) or "AddressSanitizer" in txt or "runtime error:" in txt:
+        return crash_summary(txt)
+    return None
+
+
+def scratch_dir(tag):
+    base = "/dev/shm" if os.path.isdir("/dev/shm") else ensure_build()
+    d = tempfile.mkdtemp(prefix="lhasa_%s_" % tag, dir=base)
+    os.chmod(d, 0o755)
+    return d
